@@ -19,6 +19,28 @@ def split_cases(lines):
     return [(s, starts[i + 1] if i + 1 < len(starts) else len(lines)) for i, s in enumerate(starts)]
 
 
+_ORACLE_MEMO = {}
+
+
+def run_oracle(ctx, stream, ops):
+    """Run the harness oracle on an ops file; the verdicts of one file content are computed once per check run
+    (the oracles execute the real code for seconds: the generated file is looked at by the mismatch path and by
+    oracle_all)."""
+    import hashlib
+    key = (stream, hashlib.sha1(open(ops, "rb").read()).hexdigest())
+    if key in _ORACLE_MEMO:
+        return _ORACLE_MEMO[key]
+    out = ops + ".verdict"
+    if os.path.exists(out):
+        os.remove(out)
+    rc, log = ctx.harness("oracle", stream, ops, out)
+    res = ctx.read_lines(out) if rc == 0 and os.path.exists(out) else None
+    if res is None:
+        ctx.log("oracle %s on %s failed rc=%d: %s" % (stream, os.path.basename(ops), rc, log[-500:]))
+    _ORACLE_MEMO[key] = res
+    return res
+
+
 def oracle(ctx, stream, case_lines, rep):
     """Property-level search on the implementation: first the given case, then everything generated."""
     cands = []
@@ -30,13 +52,9 @@ def oracle(ctx, stream, case_lines, rep):
     if os.path.exists(g):
         cands.append(g)
     for ops in cands:
-        out = ops + ".verdict"
-        if os.path.exists(out):
-            os.remove(out)
-        rc, log = ctx.harness("oracle", stream, ops, out)
-        if rc != 0 or not os.path.exists(out):
+        verdicts = run_oracle(ctx, stream, ops)
+        if verdicts is None:
             continue
-        verdicts = ctx.read_lines(out)
         lines = ctx.read_lines(ops)
         cases = split_cases(lines)
         for i, v in enumerate(verdicts):
@@ -54,11 +72,15 @@ def timer_oracle(ctx, stream, case_lines, rep):
     reproduction (they are rare schedule events): a rotation task that never ran within 60 s, and the queue
     stress reporting tasks that never ran.  Everything else goes to the generic property oracle."""
     impl = (rep or {}).get("implementation", "")
+    if impl == "scheduled-after-expiry":
+        return ("timer:rotation-scheduled-after-expiry",
+                "a certificate's renewal was scheduled for after the NotAfter of its leaf (registerSecret / rotateTime / ExpireTime)",
+                {"stream": stream, "ops": case_lines, "observed": impl, "correspondence": rep})
     if impl == "timeout":
         return ("timer:rotation-never-fired",
                 "a scheduled certificate rotation was never run by the real delayed queue (pkg/queue/delay.go)",
                 {"stream": stream, "ops": case_lines, "observed": impl, "correspondence": rep})
-    if impl.startswith("lost=") and impl != "lost=0":
+    if impl.startswith("lost=") and impl != "lost=0 burst:lost-delayed=0,lost=0,early=0":
         return ("timer:queue-task-stranded",
                 "the real delayed queue (DelayQueueBuffer(0), as the node agent uses it) left pushed tasks on the heap: " + impl,
                 {"stream": stream, "ops": case_lines, "observed": impl, "correspondence": rep})
@@ -168,14 +190,10 @@ def oracle_all(ctx, streams):
         g = os.path.join(ctx.work, "%s.gen.ops" % stream)
         if not os.path.exists(g):
             continue
-        out = g + ".verdict"
-        if os.path.exists(out):
-            os.remove(out)
-        rc, log = ctx.harness("oracle", stream, g, out)
-        if rc != 0 or not os.path.exists(out):
-            ctx.tie_broken("oracle-run:" + stream, "harness oracle rc=%d: %s" % (rc, log[-3000:]))
+        verdicts = run_oracle(ctx, stream, g)
+        if verdicts is None:
+            ctx.tie_broken("oracle-run:" + stream, "the harness oracle did not run")
             continue
-        verdicts = ctx.read_lines(out)
         ctx.count("oracle.%s.cases" % stream, len(verdicts))
         if any(v.startswith("FAIL") for v in verdicts):
             found = oracle(ctx, stream, ["case 0 %s" % stream], None)
